@@ -18,7 +18,10 @@ GARBAGE_FOR_SOLVERS = ('nan', 'huge', 'stale', 'inf', 'denormal')
 
 LOCKSTEP = ('admm', 'adupdates', 'doubleprox_dc')
 RESUME = ('landweber', 'kaczmarz', 'proximal_gradient', 'mlem', 'osmlem',
-          'steepest_descent', 'pdhg')
+          'steepest_descent', 'pdhg',
+          # not named in the statement but of the same kind ("solvers whose
+          # whole state is the iterate"): the d.c. solvers
+          'prox_dca', 'dca')
 CALLBACKS = ('landweber', 'cg', 'cg_normal', 'kaczmarz', 'mlem', 'osmlem',
              'steepest_descent', 'pdhg', 'douglas_rachford',
              'forward_backward', 'proximal_gradient',
